@@ -80,7 +80,7 @@ POSITIONS = [
     ('P1a', 'command-word', 'recipe'), ('P1b', 'command-word', 'recipe'),
     ('P1c', 'command-word', 'recipe'),
     ('P2a', 'cmds-word', 'recipe'), ('P2b', 'cmds-word', 'recipe'),
-    ('P2c', 'cmds-word', 'recipe'),
+    ('P2c', 'cmds-word', 'recipe'), ('P2e', 'cmds-env', 'recipe-env'),
     ('P3w', 'command-word', 'recipe'), ('P3e1', 'command-env', 'recipe-env'),
     ('P3e2', 'command-env', 'recipe-env'),
     ('P3se', 'shell-line-env', 'recipe-env'),
@@ -205,8 +205,9 @@ def render(src, v, shape):
             r(strquote_min('-Wl,--l9s=' + v['P9s']))),
         "command('p1', cmd=['rec', 'P1', {}, {}, {}])".format(
             r(v['P1a']), r(v['P1b']), r(v['P1c'])),
-        "command('p2', cmds=[['rec', 'P2x', {}], ['rec', 'P2y', {}, {}]])"
-        .format(r(v['P2a']), r(v['P2b']), r(v['P2c'])),
+        "command('p2', cmds=[['rec', 'P2x', {}], ['rec', 'P2y', {}, {}]], "
+        "environment={{'VFENV7': {}}})".format(
+            r(v['P2a']), r(v['P2b']), r(v['P2c']), r(v['P2e'])),
         "command('p3', cmd=['rec', 'P3', {}], environment={{'VFENV1': {}, "
         "'VFENV2': {}}})".format(r(v['P3w']), r(v['P3e1']), r(v['P3e2'])),
         "command('p3s', cmd='rec P3s1 && rec P3s2 | rec P3s3', "
@@ -469,6 +470,12 @@ def literal_model_check(values, logs):
             return (['P3se'], 'p3s: process {!r} started with environment '
                     '{!r}, the script specified {!r} for the step'.format(
                         g['argv'], g['env'], {'VFENV6': values['P3se']}))
+    for g in logs.get('p2', []):
+        if g['tool'] == 'rec' and g['env'] != {'VFENV7': values['P2e']}:
+            return (['P2e'], 'p2: command line {!r} of the step started with '
+                    'environment {!r}, the script specified {!r} for the '
+                    'step'.format(g['argv'], g['env'],
+                                  {'VFENV7': values['P2e']}))
     g3 = [g for g in logs.get('p3', []) if g['tool'] == 'rec']
     if g3 and g3[0]['env'] != {'VFENV1': values['P3e1'],
                                'VFENV2': values['P3e2']}:
